@@ -2,7 +2,7 @@
 # usage: tools/run_all.sh [quick|thorough] [ids...]   — runs the checks on /repo as it is and prints one line each
 TIER="${1:-quick}"; shift
 IDS="$@"; [ -z "$IDS" ] && IDS="C01 C02 C03 C04 C05 C06 C07 C08 C09 C10 C11 C12 C13 C14 C15 C16 C17 C18 C19"
-cd /verif
+cd "$(dirname "$(realpath "$0")")/.." || exit 2
 for p in $IDS; do
   s=$(date +%s); out=$(./check $p $TIER 2>&1); code=$?; e=$(date +%s)
   echo "$p exit=$code total=$((e-s))s $(echo "$out" | grep -E '^SUMMARY' | cut -c1-160)"
